@@ -174,6 +174,17 @@ def tree_for(tree, recipe):
     return _strip_tcomments(tree)
 
 
+def _has_tcomment(nodes):
+    for n in nodes:
+        if n[0] == "tcomment":
+            return True
+        if n[0] == "block" and (_has_tcomment(n[3]) or any(_has_tcomment(c[2]) for c in n[4])):
+            return True
+        if n[0] in ("seq", "liquid") and _has_tcomment(n[1]):
+            return True
+    return False
+
+
 def _strip_tcomments(nodes):
     out = []
     for n in nodes:
@@ -243,7 +254,14 @@ def evaluate_probe(probe):
     cspec = dict(spec)
     env2 = build_env_c11(cspec, G.DEFAULT_DELIMS, sources_for(spec, G.DEFAULT_DELIMS))
     canon = probe_outcome(env2, probe["canon_source"], probe["data"], probe["what"])
-    return [custom, canon]
+    if not probe.get("canon_plain"):
+        return [custom, canon]
+    # the template uses no shorthand comments: an environment WITHOUT template comments (the
+    # "original" of the statement) must give the same output as the one with comment delimiters
+    r2 = {**spec["recipe"], "template_comments": False, "comment_delims_always": False}
+    pspec = {**spec, "recipe": r2}
+    env3 = build_env_c11(pspec, G.DEFAULT_DELIMS, sources_for(pspec, G.DEFAULT_DELIMS))
+    return [custom, canon, probe_outcome(env3, probe["canon_source"], probe["data"], probe["what"])]
 
 
 def _run_variation(probe_list):
@@ -481,9 +499,11 @@ class C11:
         zy = fork.zygote()
         var = fork.companion().ask({"kind": "variation", "probes": [p["probe"] for p in reversed(probes)]})
         bump(st, "variation_batches")
-        for p, (custom, canon) in zip(reversed(probes), var):
+        for p, outs in zip(reversed(probes), var):
+            custom, canon = outs[0], outs[1]
             bump(st, "reach.order_variation_compared")
-            self._judge(add, p["op"], p["got"], tuple(custom), tuple(canon), p["kind"], p["delims"], "order")
+            self._judge(add, p["op"], p["got"], tuple(custom), tuple(canon), p["kind"], p["delims"], "order",
+                        tuple(outs[2]) if len(outs) > 2 else None)
             if viol:
                 return res
         f0 = zy.forks
@@ -492,9 +512,11 @@ class C11:
         chosen = [rng.choice(probes)] if rng.chance(0.15) else []
         for p in chosen:
             res["states"].append(int(p["key"][:12], 16))
-            custom, canon = zy.ask(p["key"], p["probe"])
+            outs = zy.ask(p["key"], p["probe"])
+            custom, canon = outs[0], outs[1]
             bump(st, "reach.pristine_compared")
-            self._judge(add, p["op"], p["got"], tuple(custom), tuple(canon), p["kind"], p["delims"], "pristine")
+            self._judge(add, p["op"], p["got"], tuple(custom), tuple(canon), p["kind"], p["delims"], "pristine",
+                        tuple(outs[2]) if len(outs) > 2 else None)
             if viol:
                 break
         bump(st, "reference_forks", zy.forks - f0)
@@ -741,6 +763,9 @@ class C11:
                 key = digest(("p", spec, d, src, dspec, k))
                 probe = {"kind": "probe", "spec": spec, "delims": d, "source": src,
                          "canon_source": None if lmode else csrc, "data": dspec, "what": k}
+                if not lmode and sc["specs"][i]["recipe"]["template_comments"] and not _has_tcomment(tr) \
+                        and not any(_has_tcomment(t) for t in sc["specs"][i]["partials"].values()):
+                    probe["canon_plain"] = True
                 history.append([op["uid"], k, i, got[0], got[1] if got[0] == "err" else digest(got[1])])
                 res["probes"].append({"uid": op["uid"], "op": op, "kind": k, "key": key, "probe": probe, "got": got,
                                       "delims": d})
@@ -810,7 +835,7 @@ class C11:
         res["steps"] = sim.steps
         res["isig"] = digest(sim.trace)
 
-    def _judge(self, add, op, got, custom, canon, kind, d, ref="pristine"):
+    def _judge(self, add, op, got, custom, canon, kind, d, ref="pristine", plain=None):
         got, custom, canon = tuple(got), tuple(custom), tuple(canon)
 
         def cls(a, b):
@@ -829,6 +854,11 @@ class C11:
             add("delimiter-equivalence", "equivalence:%s:%s" % (kind, cls(custom, canon)),
                 {"op": op, "custom_delims": _brief(custom), "default_delims": _brief(canon), "delims": d,
                  "is_default": default})
+            return
+        if plain is not None and kind != "parse" and custom != plain:
+            add("delimiter-equivalence", "equivalence:plain-baseline:%s" % cls(custom, plain),
+                {"op": op, "with_comment_delimiters": _brief(custom),
+                 "default_environment_without_template_comments": _brief(plain), "delims": d})
 
     # -- minimisation ------------------------------------------------------------
     def _compact(self, sc):
